@@ -36,10 +36,15 @@ impl<A: Actor> Receiver<A> {
     /// The channel keeps queued items alive as long as any sender exists, so a
     /// queued [`Call`](super::Call) would keep its reply channel open, and its
     /// caller waiting, for as long as somebody holds the mailbox.
-    pub(crate) fn close(self) {
-        let Self { messages, stop } = self;
-        drop(stop);
-        messages.drain().for_each(drop);
+    pub(crate) fn close(self) {}
+}
+
+impl<A: Actor> Drop for Receiver<A> {
+    /// However the actor ends (graceful stop, failed start, a panicking
+    /// handler, the cluster being joined), the messages still queued are
+    /// dropped with the receiver.
+    fn drop(&mut self) {
+        self.messages.drain().for_each(drop);
     }
 }
 
